@@ -208,7 +208,11 @@ def server_candidates(scfg, ver, ch):
     if ver >= (3, 4) and scfg.psk and ch.get("psk"):
         prfs = [c for a, _, c in scfg.psk if bytes(a) in ch["psk"]]
         if prfs:
-            cand = [s for s in cand if suite_hash(s) in prfs]
+            narrowed = [s for s in cand if suite_hash(s) in prfs]
+            # narrowed only when a narrowed suite is on the client's offer (a certificate is always configured here);
+            # otherwise the server falls back to a certificate handshake (RFC 8446 4.2.11)
+            if any(s in ch.get("suites", []) for s in narrowed):
+                cand = narrowed
     return cand
 
 
